@@ -81,7 +81,8 @@ def closing_ops(reent, ops, results=None):
 def run_case(case, workdir):
     full = case['ops'] + (case['tail'] or [])
     mark(case)
-    res, env, flat = F.run_seq(case['reent'], case['faults'], full, workdir, expand=True, ctor=case.get('ctor'))
+    res, env, flat = F.run_seq(case['reent'], case['faults'], full, workdir, expand=True, ctor=case.get('ctor'),
+                               interrupts=case.get('interrupts', ()))
     return res, env, flat
 
 
@@ -91,6 +92,16 @@ def check_case(drv_answers, case, out, real):
     out.evaluations += 1
     model = drv_answers.partition('res=')[2].split(';') if drv_answers.partition('res=')[2] else []
     out.traces_validated += 1
+    if case.get('interrupts'):
+        # a KeyboardInterrupt in the middle of an acquire is outside the model: judged by the no-residue monitor,
+        # for which an interrupted acquire is a failed acquire
+        res = ['X' + r[len('EXC-KeyboardInterrupt'):] if r.startswith('EXC-KeyboardInterrupt') else r for r in res]
+        msg = fault_monitor(reent, full, res, env)
+        if msg:
+            out.concrete.append({'case': case, 'what': 'KeyboardInterrupt during acquire: ' + msg, 'observed': res,
+                                 'signature': {'kind': 'interrupt-residue'}})
+        out.count('interrupted-acquires')
+        return env
     if res != model:
         k = next((i for i, (a, b) in enumerate(zip(res, model)) if a != b), min(len(res), len(model)))
         out.diffs.append({'case': case, 'impl': res, 'model': model,
@@ -228,6 +239,14 @@ def _chunk(payload):
                     r, _, flat = F.run_seq(cfg, faults, ops, work, expand=True)
                     return closing_ops(cfg, flat, r)
                 for i in range(env0.ncall):
+                    if env0.calls[i] in ('open', 'lock') and rng.random() < 0.5:
+                        # Ctrl-C arriving inside that OS call of an acquire
+                        r, _, flat = F.run_seq(cfg, (), ops, work, expand=True, interrupts=(i,))
+                        r = ['F' + x[len('EXC-KeyboardInterrupt'):] if x.startswith('EXC-KeyboardInterrupt') else x
+                             for x in r]
+                        ti = closing_ops(cfg, flat, r)
+                        if ti is not None and i < len(F.run_seq(cfg, (), ops, work)[1].calls):
+                            cases.append({'reent': list(cfg), 'faults': [], 'interrupts': [i], 'ops': ops, 'tail': ti})
                     t1 = tail_for((i,))
                     if t1 is None:
                         continue
